@@ -9,7 +9,10 @@
 (*             Cancel(p)      the caller's context is cancelled while it is blocked  *)
 (*   writer    WSelect(br)    select { <-stop | m := <-in }                 (blocks) *)
 (*             WDrain(br)     drainReady: one non-blocking receive, at most B        *)
-(*             WFlush(ok)     SendProto of the batch; failure -> error handler       *)
+(*             WFlush(o)      SendProto of the batch: "ok" | "fail" (not delivered,  *)
+(*                            error handler gets the batch) | "lost" (the receiver   *)
+(*                            handled the batch but the reply never arrives: the     *)
+(*                            batch is delivered AND handed to the error handler)    *)
 (*             (return / wg.Done happens with the step that decides to leave)        *)
 (*   closer    XClose         closeOnce: close(done)                                 *)
 (*             XStop          inflight.Lock(); close(stop); Unlock()        (blocks) *)
@@ -18,6 +21,8 @@
 (* of the action.  Channel `in` has capacity 4*B as in newCoalescer.                 *)
 (* Deviations of the code from the repaired design are branches named in Defects:    *)
 (*   "SingleDrain"  on close the writer drains ONE batch (<= B) and exits            *)
+(*   "ResendOnError" the flush is repeated after a transport error: a batch whose     *)
+(*                  reply was lost reaches the receiver twice                        *)
 (*   "LateSubmit"   close does not wait for submits in flight (no inflight lock, the *)
 (*                  writer stops on done): a submit that passed its done check       *)
 (*                  enqueues its message after the writer's final drain              *)
@@ -50,16 +55,17 @@ VARIABLES ch,         \* Seq(id): channel `in`
           delivered,  \* Seq(id): messages of successfully flushed batches, in order
           dead,       \* Seq(id): messages handed to the error handler
           nfail,      \* failing flushes so far
+          ambig,      \* ids of batches whose reply was lost (delivered and reported as failed: inherent to an RPC)
           xpc         \* closer: "idle" | "lock" | "wait" | "closed"
 
-vars == <<ch, done, stop, readers, pc, k, cancelled, ncancel, accepted, rejected, wpc, batch, closing, delivered, dead, nfail, xpc>>
+vars == <<ch, done, stop, readers, pc, k, cancelled, ncancel, accepted, rejected, wpc, batch, closing, delivered, dead, nfail, ambig, xpc>>
 
 Init == /\ ch = <<>> /\ done = FALSE /\ stop = FALSE /\ readers = {}
         /\ pc = [p \in Callers |-> "idle"] /\ k = [p \in Callers |-> 1]
         /\ cancelled = [p \in Callers |-> FALSE] /\ ncancel = 0
         /\ accepted = {} /\ rejected = {}
         /\ wpc = "select" /\ batch = <<>> /\ closing = FALSE
-        /\ delivered = <<>> /\ dead = <<>> /\ nfail = 0
+        /\ delivered = <<>> /\ dead = <<>> /\ nfail = 0 /\ ambig = {}
         /\ xpc = "idle"
 
 \* ---- callers ----------------------------------------------------------------------
@@ -72,7 +78,7 @@ Accept(p) == /\ ch' = Append(ch, Id(p, k[p]))
              /\ Return(p) /\ UNCHANGED rejected
 Reject(p) == /\ rejected' = rejected \cup {Id(p, k[p])}
              /\ Return(p) /\ UNCHANGED <<ch, accepted>>
-Writer == <<wpc, batch, closing, delivered, dead, nfail>>
+Writer == <<wpc, batch, closing, delivered, dead, nfail, ambig>>
 
 \* a call that starts after Close has returned is outside the contract ("after calling Close, the client should
 \* not be used for new requests": the client would silently build a new coalescer); calls racing with Close are in
@@ -124,7 +130,7 @@ WSelect(br) ==
      \/ /\ br = "done" /\ stop
         /\ closing' = TRUE /\ wpc' = "drain"
         /\ UNCHANGED <<ch, batch>>
-  /\ UNCHANGED <<done, stop, readers, CallerVars, delivered, dead, nfail, xpc>>
+  /\ UNCHANGED <<done, stop, readers, CallerVars, delivered, dead, nfail, ambig, xpc>>
 
 WDrain(br) ==
   /\ wpc = "drain"            \* Len(batch) < B here
@@ -135,12 +141,17 @@ WDrain(br) ==
      \/ /\ br = "empty" /\ ch = <<>>
         /\ wpc' = AfterDrain(batch)
         /\ UNCHANGED <<ch, batch>>
-  /\ UNCHANGED <<done, stop, readers, CallerVars, delivered, dead, nfail, xpc>>
+  /\ UNCHANGED <<done, stop, readers, CallerVars, delivered, dead, nfail, ambig, xpc>>
 
-WFlush(ok) ==
+WFlush(o) ==
   /\ wpc = "flush"
-  /\ IF ok THEN delivered' = delivered \o batch /\ UNCHANGED <<dead, nfail>>
-           ELSE nfail < MaxFail /\ nfail' = nfail + 1 /\ dead' = dead \o batch /\ UNCHANGED delivered
+  /\ CASE o = "ok"   -> delivered' = delivered \o batch /\ UNCHANGED <<dead, nfail, ambig>>
+       [] o = "fail" -> nfail < MaxFail /\ nfail' = nfail + 1 /\ dead' = dead \o batch /\ UNCHANGED <<delivered, ambig>>
+       [] o = "lost" -> /\ nfail < MaxFail /\ nfail' = nfail + 1
+                        /\ delivered' = IF "ResendOnError" \in Defects THEN delivered \o batch \o batch   \* retried blindly
+                                                                          ELSE delivered \o batch           \* sent exactly ONCE
+                        /\ dead' = dead \o batch
+                        /\ ambig' = ambig \cup {batch[i] : i \in 1..Len(batch)}
   /\ batch' = <<>>
   /\ wpc' = IF ~closing THEN "select"
             ELSE IF "SingleDrain" \in Defects \/ Len(ch) = 0 THEN "exited"
@@ -163,7 +174,7 @@ Next == \/ \E p \in Callers : \/ Call(p) \/ SEnter(p) \/ Cancel(p)
                               \/ \E br \in {"send", "ctx", "closed"} : SSlow(p, br)
         \/ \E br \in {"in", "done"} : WSelect(br)
         \/ \E br \in {"recv", "empty"} : WDrain(br)
-        \/ \E ok \in BOOLEAN : WFlush(ok)
+        \/ \E o \in {"ok", "fail", "lost"} : WFlush(o)
         \/ XClose \/ XStop \/ XWait
 
 Spec == Init /\ [][Next]_vars
@@ -175,7 +186,8 @@ NoDup(s) == \A i, j \in 1..Len(s) : i # j => s[i] # s[j]
 Quiescent == xpc = "closed" /\ \A p \in Callers : pc[p] \in {"idle", "finished"}
 
 \* each message at most once, and never both delivered and dead-lettered
-AtMostOnce == NoDup(delivered \o dead)
+AtMostOnce == /\ NoDup(delivered) /\ NoDup(dead)
+              /\ \A i \in 1..Len(delivered), j \in 1..Len(dead) : delivered[i] = dead[j] => delivered[i] \in ambig
 \* messages of one caller are delivered in send order
 PerCallerFIFO == \A i, j \in 1..Len(delivered) :
                     (i < j /\ delivered[i] \div 1000 = delivered[j] \div 1000) => delivered[i] < delivered[j]
